@@ -36,6 +36,7 @@ def declare(rep):
     rep.rule("R15.1", "every surviving link write has parent ⊋ child and the branch side of the child (from the path's facts)")
     rep.rule("R15.2", "root never freed / linked as a child; prefix overwritten only by an equal key or on a fresh slot")
     rep.rule("R15.3", "insert / entry insertions / remove map canonical pre-states to canonical post-states (touched nodes)")
+    rep.rule("R15.6", "definition of the branch side: to_right(branch, child) = child.is_bit_set(branch.prefix_len())")
     rep.rule("R15.5", "(shared with C16) no live node links to a freed slot, no slot is linked twice")
     rep.rule("R15.4", "value-only operations write no link, free-list or arena state")
 
@@ -80,6 +81,7 @@ def touched_nodes(p):
 
 
 def run_config(ctx, rep, cfg, F):
+    C.check_primitives(rep, F, "R15.6", ("to_right",))
     n_links = 0
     progs = c16.entry_programs(ctx, F)
     for where, paths, ret_fresh in progs:
